@@ -1,10 +1,14 @@
 #!/bin/sh
-# usage: try_mutant.sh <patch> <prop>...   applies the patch to /repo, runs the checks, reverts
+# usage: try_mutant.sh <patch> <prop>...   applies the patch to /repo, runs the checks, reverts.
+# The evidence files written while the patch is applied are discarded (evidence must describe the
+# unchanged tree).
 P="$1"; shift
 cd /repo && git apply "$P" || exit 9
 cd /verif
+mkdir -p .cache/evidence_keep && cp evidence/*.json .cache/evidence_keep/
 for p in "$@"; do
   out=$(./check $p 2>&1); rc=$?
   echo "== $p rc=$rc"; echo "$out" | grep -E "^(VIOLATION|KNOWN-FINDING|BUILD-FAILED|HARNESS-ERROR|C[0-9]+:)" | cut -c1-300 | grep -v "^KNOWN" 
 done
+cp .cache/evidence_keep/*.json evidence/
 git -C /repo checkout -- .
